@@ -579,6 +579,11 @@ def finish_replay(job, h, path, rlog, crate, lane, test):
             # index panics word their messages differently from CBMC's check descriptions)
             if c.get("category") != "assertion" or (d and d[:60] in out) or where in out:
                 return path, True
+            # unwrap()/expect()/index panics with a message formatted at run time: CBMC reports
+            # them inside core with a placeholder text; natively they surface as a panic located
+            # in the code under test
+            if "placeholder message" in d and re.search(r"panicked at %s/src/" % re.escape(REPO.rstrip("/")), out):
+                return path, True
         return path, False
     if all(v == "passes" for k, v in res.items() if not k.endswith("_output")):
         return path, False
